@@ -28,6 +28,12 @@ def sh(cmd, cwd=None, timeout=3600):
     return p.returncode, p.stdout.decode(errors="replace")
 
 
+def pick(case, n):
+    """a deterministic 1-in-n choice that depends on the case only (so that a replay makes the same choice)"""
+    import zlib
+    return zlib.crc32(json.dumps(case, sort_keys=True, default=str).encode()) % n == 0
+
+
 class Lock(object):
     def __init__(self, name):
         d = os.path.join(VERIF, ".locks")
